@@ -148,6 +148,12 @@ pub trait Monitor: Sync {
 	fn lanes(&self, _tier: Tier) -> Vec<Lane> {
 		vec![]
 	}
+	/// address-space limit (bytes) under which the worker processes of this check run: the
+	/// memory-limited host as an environment dimension. An allocation failure of a large block
+	/// under this limit is then an observation about the library, not about the machine.
+	fn address_space_limit(&self) -> Option<u64> {
+		None
+	}
 	/// per-worker wall-clock watchdog (firing = inconclusive, never a violation)
 	fn watchdog(&self, tier: Tier) -> Duration {
 		Duration::from_secs(tier.pick(900, 4 * 3600))
@@ -497,7 +503,7 @@ pub fn run_lane(id: &str, lane: &Lane, seed: u64) -> LaneResult {
 				let _ = fs::create_dir_all(&nested_root);
 				let log = dir.join("asan-run.log");
 				let mut c = Command::new(tdir.join("x86_64-unknown-linux-gnu/debug/pvh"));
-				c.args(["run", id, "quick"]).env("PVH_ROOT", &nested_root).env("PVH_FINDINGS", root.join("known_findings.json")).env("VERIF_SEED", seed.to_string()).env("ASAN_OPTIONS", "detect_leaks=0:abort_on_error=1:halt_on_error=1").env("PVH_NO_LANES", "1");
+				c.args(["run", id, "quick"]).env("PVH_ROOT", &nested_root).env("PVH_FINDINGS", root.join("known_findings.json")).env("VERIF_SEED", seed.to_string()).env("ASAN_OPTIONS", "detect_leaks=0:abort_on_error=1:halt_on_error=1").env("PVH_NO_LANES", "1").env("PVH_NO_RLIMIT", "1");
 				let (code, timed_out) = run_with_timeout(c, &log, Duration::from_secs(3600));
 				*exit_codes.entry(format!("{:?}", code)).or_default() += 1;
 				let ev: Option<Value> = fs::read_to_string(nested_root.join("evidence").join(format!("{}.json", id))).ok().and_then(|s| serde_json::from_str(&s).ok());
@@ -547,7 +553,7 @@ pub fn run_lane(id: &str, lane: &Lane, seed: u64) -> LaneResult {
 				let jobs = std::thread::available_parallelism().map(|n| n.get()).unwrap_or(4);
 				let log = dir.join("fuzz-run.log");
 				let mut c = Command::new("cargo");
-				c.args(["+nightly", "fuzz", "run", "--fuzz-dir"]).arg(&fuzz_dir).arg("read_any").arg(&corpus).arg("--").args([&format!("-max_total_time={}", secs), "-timeout=20", &format!("-fork={}", jobs), "-max_len=70000", "-len_control=0", "-ignore_crashes=1", "-ignore_timeouts=1", "-ignore_ooms=1", "-rss_limit_mb=6144", "-malloc_limit_mb=6144"]).arg(format!("-artifact_prefix={}/", artifacts.display())).current_dir(&fuzz_dir).env("CARGO_NET_OFFLINE", "true").env("CARGO_TARGET_DIR", root.join("target").join("fuzz"));
+				c.args(["+nightly", "fuzz", "run", "--fuzz-dir"]).arg(&fuzz_dir).arg("read_any").arg(&corpus).arg("--").args([&format!("-max_total_time={}", secs), "-timeout=20", &format!("-fork={}", jobs), "-max_len=70000", "-len_control=0", "-ignore_crashes=1", "-ignore_timeouts=1", "-ignore_ooms=1", "-rss_limit_mb=6144", "-malloc_limit_mb=2048"]).arg(format!("-artifact_prefix={}/", artifacts.display())).current_dir(&fuzz_dir).env("CARGO_NET_OFFLINE", "true").env("CARGO_TARGET_DIR", root.join("target").join("fuzz"));
 				let (code, timed_out) = run_with_timeout(c, &log, Duration::from_secs(secs + 1800));
 				*exit_codes.entry(format!("{:?}", code)).or_default() += 1;
 				let text = fs::read_to_string(&log).unwrap_or_default();
@@ -773,9 +779,37 @@ fn replay_dir(id: &str) -> PathBuf {
 	verif_root().join("replays").join(id)
 }
 
+/// RLIMIT_AS for this process. Not under Miri (no FFI) and not when PVH_NO_RLIMIT is set
+/// (ASan and valgrind need terabytes of address space for their shadow memory).
+pub fn limit_address_space(bytes: u64) -> bool {
+	if std::env::var_os("PVH_NO_RLIMIT").is_some() {
+		return false;
+	}
+	#[cfg(all(target_os = "linux", not(miri)))]
+	{
+		extern "C" {
+			fn setrlimit(resource: i32, rlim: *const [u64; 2]) -> i32;
+		}
+		const RLIMIT_AS: i32 = 9;
+		let r = [bytes, bytes];
+		return unsafe { setrlimit(RLIMIT_AS, &r) == 0 };
+	}
+	#[allow(unreachable_code)]
+	false
+}
+
+/// Size named by the runtime's "memory allocation of N bytes failed" message.
+fn failed_alloc_size(tail: &str) -> Option<u64> {
+	let i = tail.find("memory allocation of ")? + "memory allocation of ".len();
+	tail[i..].split(' ').next()?.parse().ok()
+}
+
 pub fn worker_main(mon: &dyn Monitor, tier: Tier, seed: u64, shard: usize, nshards: usize, from: usize) {
 	install_panic_hook();
 	install_logger();
+	if let Some(b) = mon.address_space_limit() {
+		limit_address_space(b);
+	}
 	// process environment as a dimension: odd shards run with the variables that build and
 	// packaging tools commonly set or honour; nothing the library does may depend on them
 	if shard % 2 == 1 {
@@ -939,7 +973,13 @@ pub fn run_check(mon: &dyn Monitor, tier: Tier, seed: u64) -> i32 {
 						None => format!("exit code {:?}", status.code()),
 					};
 					let stderr_tail = fs::read_to_string(dir.join(format!("stderr-{}", s.shard))).unwrap_or_default();
-					let tail: String = stderr_tail.lines().rev().take(4).collect::<Vec<_>>().into_iter().rev().collect::<Vec<_>>().join(" | ");
+					let mut tail: String = stderr_tail.lines().rev().take(4).collect::<Vec<_>>().into_iter().rev().collect::<Vec<_>>().join(" | ");
+					// the runtime's own last words may be followed by a backtrace
+					if let Some(l) = stderr_tail.lines().rev().take(80).find(|l| l.contains("memory allocation of ") || l.contains("overflowed its stack")) {
+						if !tail.contains(l) {
+							tail = format!("{} | {}", l.trim(), tail);
+						}
+					}
 					let Some(i) = open else {
 						agg.inconclusive.push(format!("shard {} died outside a case ({}): {}", s.shard, how, tail));
 						continue;
@@ -947,7 +987,11 @@ pub fn run_check(mon: &dyn Monitor, tier: Tier, seed: u64) -> i32 {
 					let sub = read_progress(id, s.shard).filter(|(pi, _)| *pi == i as u64).map(|(_, sub)| sub).filter(|s| *s != u64::MAX);
 					let kind = if tail.contains("overflowed its stack") { "stack-overflow" } else if tail.contains("memory allocation") { "alloc-failure" } else { "process-death" };
 					agg.deaths.push(format!("case {} sub {:?}: {} ({})", i, sub, how, tail));
-					if kind == "alloc-failure" {
+					// An allocation failure is a verdict only where the check runs its workers under a
+					// deliberate address-space limit, PVH_NO_RLIMIT is not set, and the block asked for
+					// is far larger than anything the harness itself allocates for that check's inputs.
+					let deliberate = mon.address_space_limit().is_some() && std::env::var_os("PVH_NO_RLIMIT").is_none() && failed_alloc_size(&tail).map_or(false, |n| n >= 16 << 20);
+					if kind == "alloc-failure" && !deliberate {
 						agg.inconclusive.push(format!("case {}: allocation failure abort ({})", i, tail));
 					} else if mon.death_is_violation() {
 						let rdir = replay_dir(id);
@@ -1180,6 +1224,9 @@ pub fn replay(mon: &dyn Monitor, desc: &Value, in_child: bool) -> i32 {
 	}
 	install_panic_hook();
 	install_logger();
+	if let Some(b) = mon.address_space_limit() {
+		limit_address_space(b);
+	}
 	set_logging_for_case(idx);
 	let mut ctx = Ctx::new(tier, seed);
 	ctx.only_sub = desc["sub"].as_u64();
